@@ -273,6 +273,7 @@ class PaiInit(Contract):
 # ----------------------------------------------------------------------
 class ParamGetAtInstant(Contract):
     name = f"{PARAM}._get_at_instant"
+    loop_heads = {0: 'for value_at_instant in self.values_list'}
     prop = ("C06",)
     top_level = True
     descr = "value at a date = value of the most recent entry on or before it; undefined (None) before the first entry"
@@ -348,6 +349,9 @@ def wf_lemmas(timeout_ms):
 # ----------------------------------------------------------------------
 class ParamUpdate(Contract):
     name = f"{PARAM}.update"
+    loop_heads = {0: 'while i < n and old_values[i].instant_str >= stop_str',
+                  1: 'while i < n and old_values[i].instant_str >= start_str',
+                  2: 'while i < n'}
     prop = ("C06",)
     top_level = True
     cases = tuple(("period", u) for u in DATED_UNITS) + ("start-stop", "start-only", "period-and-start", "period-and-stop", "nothing", "stop-only")
